@@ -100,6 +100,11 @@ P = {
    "All reachable abstract states within the bounds (<= 3 layers / 5 operations quick, <= 4 layers / 6 operations thorough) are visited; in each the real top-of-stack runtime must answer every path of length 1..2, the root listing and the counters exactly as the model predicts, the failing and optional lookup must agree, roots() must be exactly the resolving names, and every live layer must see the same counters.",
    "state identity = abstract state (sound because every transition proves the real observations are a function of it); guarded by an un-deduplicated enumeration of all operation sequences to depth 3-4 and by BFS/DFS unique-state agreement",
    "DESIGN.md §5 C18"),
+ "C20": (True, "vsched", "model_checking",
+   "stateless model checking of schedules: preemption-bounded (and, for the smallest harness, unbounded) DFS with prefix replay over all interleavings of 2-3 real threads at hooked scheduling points (cache-lock acquire/release, inside the critical section, between template elements, around API calls); each execution compared with the sequential baseline",
+   "For six harnesses on shared Parser/Template/PartialStore objects built with the lazy compiler, every interleaving up to the preemption bound is executed on the real code: every call must return exactly its sequential result, no interleaving may deadlock or panic, and a sequential re-run on the used objects must still equal the baseline. The first and every failing schedule are replayed twice (determinism); a thread not reaching its next point in 10 s, or a replay divergence, is a machinery failure, never a verdict.",
+   "sequentially consistent interleavings only; scheduling points limited to the hook shim and the public plugin API; an auxiliary free-running stress run is labelled sampling and not claimed as coverage",
+   "DESIGN.md §5 C20"),
 }
 ORDER = ["C%02d" % i for i in range(1, 21)]
 REASON_WIP = "check not built yet in this round (work in progress; planned per DESIGN.md §5)"
@@ -133,7 +138,7 @@ def main():
         "hooks": {
             "guard": "cargo feature `verif-hooks` of liquid-core (off by default)",
             "enable": "only harness/lqv-sched depends on liquid-core with features=[\"verif-hooks\"]; every other check builds the crates exactly as a user would",
-            "baseline_off_cmd": "cd /repo && cargo test --workspace --no-fail-fast --offline",
+            "baseline_off_cmd": "cd /repo && cargo nextest run --workspace --no-fail-fast --test-threads 8 --offline || cargo test --workspace --no-fail-fast --offline",
             "source_commits": hooks_commits,
             "add_only": True,
         },
